@@ -391,6 +391,10 @@ func checkC16(c *Ctx) {
 	r.Rule("C16.X8", "the path value built from the parse result keeps every operand, in order, and the inverse flag", 4)
 	pathTreeBuilder(c, g, "C16.X8")
 
+	// ---- X9: whether a string is accepted is decided by parsing THAT string: no cache or memo table may stand between the
+	// profile text and the parser (a key that normalises the text maps rejected strings onto accepted ones)
+	noCrossCallState(c, "C16.X9", "no parse result survives a call in a package-level variable (caches keyed by a normalised text accept what the grammar rejects)", "a string the grammar rejects can be answered with the remembered parse of a look-alike that was accepted earlier")
+
 	// ---- X5
 	c16SourceAgreement(c, g)
 }
